@@ -43,7 +43,7 @@ GROUPS = {
         U("retwrap", "WrapInUxn"), U("retwrap", "WrapInUxns"), U("retwrap", "Reflected"),
     ],
     "subdag": [U("subdag", "ConstructSubdagArgUxns"), U("subdag", "DescribeSubDag")],
-    "compose": [U("compose", "AddMissingDeps")],
+    "compose": [U("compose", "AddMissingDeps"), U("compose", "Compose")],
     "threads": [U("threads", "InDescriptionContext"), U("threads", "ThreadsafeMakeDag"), U("threads", "WrapMakeDag")],
 }
 
